@@ -32,6 +32,7 @@ var c17Ignore = map[string]string{
 var c17Nodes = []string{"Thrift", "Include", "Namespace", "Typedef", "Constant", "Enum", "EnumValue", "StructLike", "Field", "Service", "Function", "Type", "ConstValue", "ConstTypedValue", "MapConstValue", "Annotation"}
 
 func c17(c *core.Check) {
+	c17scalarPrinted(c)
 	c.Explain = "COVER + LINT + SIB on tool/trimmer/dump. (1) Every attribute of every AST node type (fields enumerated through go/types; resolution-only attributes on a reasoned ignore list) is read somewhere in the call-graph closure of DumpIDL: an attribute that is never read cannot be printed, so the re-parsed AST would differ in it. " +
 		"(2) index/len lint: inside `for i, x := range S` a comparison of i with len(T)±c must have T = S (separator placement). " +
 		"(3) argument printing and throws printing are alpha-equivalent loops (compared with each other after renaming loop variables and abstracting the ranged slice). " +
